@@ -63,15 +63,29 @@ N == IF Tier = "quick" THEN 4 ELSE 5
 Texts(i) == TextSeqUpTo(Alpha(i), IF i = 1 THEN N + 1 ELSE N)
             \o (IF i >= 3 THEN << <<a, 44, b, 44>>, <<a, 44, 44>>, <<40, 40, a, 41, b, 41, a>>, <<a, b, 44, a>> >> ELSE <<>>)
 
+(* curried entry point of a parameterised class: C.parse(value)(text, pos) *)
+RulesP == [ start |-> Rule(Call("P", <<Pos(PyInt(2))>>)),
+            P |-> ClassP(<<"n">>, <<Field("it", Rep(A1, Nm("n"), Nm("n"))), Field("rest", Opt(B1))>>) ]
+GP == [rules |-> RulesP, ign |-> <<>>, start |-> "start"]
+CurriedRuns(tps) ==
+    [k \in 1..(3 * Len(tps)) |->
+        LET n == ((k - 1) \div Len(tps))  tp == tps[((k - 1) % Len(tps)) + 1]
+        IN RunArgs(GP, "P", << <<"i", n>> >>, tp[1], tp[2])]
+
 VARIABLES gi, en, done
 vars == <<gi, en, done>>
 
-Init == gi \in 1..5 /\ en \in 1..Len(Entries(gi)) /\ done = FALSE
+Init == /\ \/ (gi \in 1..5 /\ en \in 1..Len(Entries(gi)))
+           \/ (gi \in {6, 7} /\ en = 1)           \* 6: curried class entry, unnamed; 7: the same in a named grammar
+        /\ done = FALSE
 
 Step == /\ ~done
         /\ done' = TRUE
         /\ UNCHANGED <<gi, en>>
-        /\ EmitCasePos(Grammar(gi), IF gi = 5 THEN [prop |-> "C08", bytes |-> TRUE] ELSE [prop |-> "C08"],
+        /\ IF gi \in {6, 7}
+           THEN PrintT(ToJson([g |-> GP, cfg |-> IF gi = 7 THEN [prop |-> "C08", name |-> "vg_c08"] ELSE [prop |-> "C08"],
+                               runs |-> CurriedRuns(AllPos(TextSeqUpTo(<<a, b>>, 3), 1, 0))]))
+           ELSE EmitCasePos(Grammar(gi), IF gi = 5 THEN [prop |-> "C08", bytes |-> TRUE] ELSE [prop |-> "C08"],
                        <<Entries(gi)[en]>>, AllPos(Texts(gi), 1, 0))
 
 Next == Step
@@ -85,7 +99,7 @@ ShiftV(v, k) ==
       [] OTHER -> v
 
 LawShift ==
-    done =>
+    (done /\ gi <= 5) =>
     \A j \in 1..Len(Texts(gi)) :
         LET t == Texts(gi)[j] IN
         \A k \in 1..Len(t) :
